@@ -55,6 +55,31 @@ def run(R):
                            {"op": "process_mut", "x": 2, "data_from": 4}]
                 hs.append(b)
                 R.count((variant, rounds, "involution", n))
+    # ---- position matrix: (where the context stood) x (where it is sent, once or twice in a row) x (what is asked next, incl. calls of 8 blocks
+    # and more from mid-block), every combination for one (variant, rounds) per counter discipline, a seeded part for the others
+    plens = [0, 1, 63, 65, 513]
+    pw = hc.write_cfg(R, "GENP_Stream_wrap", {"B": 64, "M": M, "Carry": "FALSE", "MaxOps": 5, "NCtx": 1, "Lens": hc.tla_set(plens), "Seeks": hc.tla_set([0, 1, 2, M - 1]),
+                                              "DrgFill": '"overwrite"', "Gen": "TRUE"}, ["EmitPos"], nxt="NextGen", constraints=["PosShape"])
+    pc = hc.write_cfg(R, "GENP_Stream_carry", {"B": 64, "M": M, "Carry": "TRUE", "MaxOps": 5, "NCtx": 1, "Lens": hc.tla_set([1, 65, 513]), "Seeks": hc.tla_set([1, 2, M - 1]),
+                                               "DrgFill": '"overwrite"', "Gen": "TRUE"}, ["EmitPos"], nxt="NextGen", constraints=["PosShape"])
+    posw = R.generate("StreamCtx", pw, xmx="10g")
+    posc = R.generate("StreamCtx", pc, xmx="10g")
+    npos = 0
+    for variant, (nl, keylens, wide) in sc.VARIANTS.items():
+        for rounds in sc.ROUNDS:
+            full = rounds == 20 and variant in ("ietf", "salsa")
+            frac = 1.0 if thorough else ((0.5 if variant == "ietf" else 0.25) if full else 0.02)
+            for h in (posc if wide else posw):
+                if frac < 1 and R.rng.random() >= frac:
+                    continue
+                # a history is kept if it fits the budget of blocks TLC has to recompute
+                if sum(e.get("len", 0) for e in h) > 1100:
+                    continue
+                tag = "pos/%s/%d" % (variant, rounds)
+                hs.append(sc.concretise(R, h, sc.base(R, variant, rounds, keylens[-1], tag), M, tag))
+                npos += 1
+                R.count((variant, rounds, "pos", hc.signature(h)))
+    R.extra["position_matrix_histories"] = npos
     for rounds in sc.ROUNDS:
         chosen, nu = hc.select(R, bd, per * 2)
         sigs += nu
